@@ -361,26 +361,46 @@ Local Open Scope N_scope.
 Local Open Scope list_scope.
 
 (* how the module plugged into a slot behaves: the crate's AcceptingModule / FailingModule (no record),
-   or a recording module that logs (slot, sender, payload, block height) out of band, writes a marker
-   into the storage it is handed, and then answers Ok(data := payload digest) / Err *)
-Inductive behaviour := Accepting | Failing | RecOk | RecErr.
+   a recording module that logs (slot, sender, payload, block height) out of band, writes a marker
+   into the storage it is handed, and then answers Ok(data := payload digest) / Err; or, for the bank slot
+   only, the crate's own BankKeeper (no record; see bank_result) *)
+Inductive behaviour := Accepting | Failing | RecOk | RecErr | Keeper.
 Inductive res := ROk (data : option N) | RErr | RPanic.
+
+(* the entry point of the emitting contract that returns the probes: all five go through
+   WasmKeeper::process_response with the CONTRACT's address (src/wasm.rs: Execute arm, Migrate arm,
+   process_wasm_msg_instantiate, sudo, reply); the model treats them alike -- that IS the specification:
+   whatever the entry point, the sender of a sub-message is the emitting contract *)
+Inductive entrypoint := EExecute | EInstantiate | EMigrate | ESudo | EReply.
 
 Inductive origin :=
 | Top          (* App::execute_multi(sender, msgs): one transaction *)
 | TopQuery     (* one query through the App's querier, no transaction *)
-| SubCustom    (* a contract written for the chain's custom message type: inline queries, then sub-messages *)
-| SubEmpty.    (* the same contract written against Empty and lifted by ContractWrapper::new_with_empty *)
+| SubCustom (e : entrypoint)   (* a contract written for the chain's custom message type: inline queries, then sub-messages *)
+| SubEmpty (e : entrypoint).   (* the same contract written against Empty and lifted by ContractWrapper::new_with_empty / with_*_empty *)
+
+(* the funds attached to a WasmMsg::Execute / Instantiate *)
+Inductive fclass :=
+| FEmpty       (* []            : the bank module is not asked *)
+| FPos         (* [5 x]         *)
+| FZero1       (* [0 x]         : non-empty: the bank module IS asked (src/wasm.rs send: `!amount.is_empty()`) *)
+| FZero2       (* [0 x; 0 y]    *)
+| FZeroPos.    (* [0 x; 3 y]    *)
 
 Inductive probe :=
 | PMsg (k : mkind) (payload : N) (catch : bool)      (* catch: reply_on = Always and a reply handler that records *)
-| PQuery (k : qkind) (payload : N) (catch : bool).   (* catch: the contract records the error instead of failing *)
+| PQuery (k : qkind) (payload : N) (catch : bool)    (* catch: the contract records the error instead of failing *)
+(* WasmMsg::Execute (inst = false) / WasmMsg::Instantiate (inst = true) of a real callee with funds:
+   send_payload = digest of BankMsg::Send { to_address: callee, amount: funds verbatim },
+   callee_payload = digest of (nonce, info.funds) as the callee receives them *)
+| PFunded (inst : bool) (fc : fclass) (send_payload callee_payload : N) (catch : bool).
 
 Record input := mk_input {
   i_cfg : list behaviour;     (* by slot_id *)
   i_origin : origin;
   i_pre : bool;               (* state is written in the same transaction before the first probe *)
-  i_sender : N;               (* digest of the address that sends the messages (user / emitting contract) *)
+  i_sender : N;               (* digest of the address that sends the messages: the user at top level,
+                                 the EMITTING CONTRACT for every contract origin, whatever the entry point *)
   i_height : N;
   i_probes : list probe }.
 
@@ -391,17 +411,28 @@ Record obs := mk_obs {
   o_tx : res;                  (* outcome of the whole call as the top-level caller sees it *)
   o_seen : list (N * res);     (* per probe index: what its caller saw (top level: the response; contract: reply / query result) *)
   o_pre : bool;                (* the earlier write is still there *)
-  o_keys : list (N * N) }.     (* markers written by modules that are still there: (slot, payload) *)
+  o_keys : list (N * N) }.     (* markers written by modules / callees that are still there: (slot, payload) *)
 
 Definition unk : N := 999999.
+(* pseudo-slot of the log entry / marker a funded callee makes when it runs: (8, info.sender, (nonce, info.funds), height) *)
+Definition callee_slot : N := 8.
 
 Fixpoint nthN {A} (l : list A) (i : N) (d : A) : A :=
   match l with [] => d | x :: r => if i =? 0 then x else nthN r (N.pred i) d end.
 
 Definition records (b : behaviour) : bool := match b with RecOk | RecErr => true | _ => false end.
+(* (the keeper is only ever asked for the Send of a funded wasm message: see bank_result; plain probes are
+   never sent to it by the harness, RErr is a placeholder) *)
 Definition mod_result (b : behaviour) (payload : N) : res :=
-  match b with Accepting => ROk None | RecOk => ROk (Some payload) | Failing | RecErr => RErr end.
+  match b with Accepting => ROk None | RecOk => ROk (Some payload) | Failing | RecErr | Keeper => RErr end.
 Definition is_ok (r : res) : bool := match r with ROk _ => true | _ => false end.
+
+Definition f_nonempty (fc : fclass) : bool := match fc with FEmpty => false | _ => true end.
+Definition f_positive (fc : fclass) : bool := match fc with FPos | FZeroPos => true | _ => false end.
+(* the bank module's verdict on the Send of the funds: scripted, or BankKeeper's own (it drops zero coins,
+   refuses "empty coins amount", and the harness gives the payer enough of every denom) *)
+Definition bank_result (b : behaviour) (fc : fclass) (send_payload : N) : res :=
+  match b with Keeper => if f_positive fc then ROk None else RErr | _ => mod_result b send_payload end.
 
 (* where the router sends a kind: to a slot (intact = sender, payload, block, storage handed over
    unchanged), to an ordinary error, or to a panic *)
@@ -414,11 +445,19 @@ Inductive status := Running | Aborted | Panicked.
 Record mstate := mk_ms { ms_status : status; ms_i : N; ms_log : list entry; ms_keys : list (N * N); ms_seen : list (N * res) }.
 
 Definition is_top (o : origin) : bool := match o with Top | TopQuery => true | _ => false end.
-Definition p_payload (p : probe) : N := match p with PMsg _ x _ | PQuery _ x _ => x end.
-Definition p_catch (p : probe) : bool := match p with PMsg _ _ c | PQuery _ _ c => c end.
-Definition p_is_msg (p : probe) : bool := match p with PMsg _ _ _ => true | _ => false end.
+Definition is_empty_typed (o : origin) : bool := match o with SubEmpty _ => true | _ => false end.
+Definition p_payload (p : probe) : N := match p with PMsg _ x _ | PQuery _ x _ => x | PFunded _ _ x _ _ => x end.
+Definition p_catch (p : probe) : bool := match p with PMsg _ _ c | PQuery _ _ c | PFunded _ _ _ _ c => c end.
+Definition p_is_msg (p : probe) : bool := match p with PQuery _ _ _ => false | _ => true end.
+(* the message kind a probe is emitted as (a funded probe is a CosmosMsg::Wasm) *)
+Definition p_mkind (p : probe) : option mkind := match p with PMsg k _ _ => Some k | PFunded _ _ _ _ _ => Some MWasm | PQuery _ _ _ => None end.
 (* SPEC: the slot configured for the probe's kind *)
-Definition pslot (p : probe) : N := match p with PMsg k _ _ => slot_id (mslot k) | PQuery k _ _ => slot_id (qslot k) end.
+Definition pslot (p : probe) : N :=
+  match p with PMsg k _ _ => slot_id (mslot k) | PQuery k _ _ => slot_id (qslot k) | PFunded _ _ _ _ _ => slot_id SlWasm end.
+
+(* what dispatching one probe does: a panic, or log entries + the result its caller is given + the markers
+   that stay if the result is Ok *)
+Inductive effect := EPanic | EDone (es : list entry) (r : res) (ks : list (N * N)).
 
 Section Run.
   Variable R : routes.
@@ -426,35 +465,79 @@ Section Run.
 
   (* customize_response lifts ALL sub-messages of the response before the first one is dispatched *)
   Definition lift_abort : bool :=
-    match i_origin inp with
-    | SubEmpty => existsb (fun p => match p with
-                                    | PMsg k _ _ => match rl R k with LAbort => true | _ => false end
-                                    | _ => false
-                                    end) (i_probes inp)
-    | _ => false
-    end.
+    is_empty_typed (i_origin inp) &&
+    existsb (fun p => match p_mkind p with
+                      | Some k => match rl R k with LAbort => true | _ => false end
+                      | None => false
+                      end) (i_probes inp).
 
-  Definition target (p : probe) : xroute :=
-    match p with
-    | PQuery k _ _ => rq R k
-    | PMsg k _ _ =>
-        match i_origin inp with
-        | SubEmpty => match rl R k with
-                      | LAbort => XPanic
-                      | LTo (Some k') ok => match rx R k' with XTo s i => XTo s (i && ok) | r => r end
-                      | LTo None _ => XTo unk false
-                      end
-        | _ => rx R k
-        end
-    end.
+  (* the route of a message of kind k emitted by this origin *)
+  Definition route_msg (k : mkind) : xroute :=
+    if is_empty_typed (i_origin inp)
+    then match rl R k with
+         | LAbort => XPanic
+         | LTo (Some k') ok => match rx R k' with XTo s i => XTo s (i && ok) | r => r end
+         | LTo None _ => XTo unk false
+         end
+    else rx R k.
 
   (* the caller is shown the result of a successful probe: always at top level and for queries; for a
      sub-message only if it asked for a reply *)
-  Definition sees (p : probe) : bool := match p with PQuery _ _ _ => true | PMsg _ _ c => c || is_top (i_origin inp) end.
+  Definition sees (p : probe) : bool := match p with PQuery _ _ _ => true | _ => p_catch p || is_top (i_origin inp) end.
 
-  Definition entry_for (sl : N) (intact : bool) (p : probe) : entry :=
-    if intact then mk_entry sl (if p_is_msg p then i_sender inp else 0) (p_payload p) (i_height inp)
-    else mk_entry sl unk unk unk.
+  Definition mk_rec (sl : N) (intact : bool) (sender payload : N) : entry :=
+    if intact then mk_entry sl sender payload (i_height inp) else mk_entry sl unk unk unk.
+
+  (* a scripted / recording module in slot sl is handed the probe *)
+  Definition module_effect (sl : N) (intact is_msg : bool) (sender payload : N) : effect :=
+    let b := nthN (i_cfg inp) sl Failing in
+    let pl := if intact then payload else unk in
+    EDone (if records b then [mk_rec sl intact sender payload] else [])
+          (mod_result b pl)
+          (if is_msg && records b then [(sl, pl)] else []).
+
+  (* the real WasmKeeper runs a funded Execute / Instantiate (src/wasm.rs:600-640, 740-800): FIRST the cash
+     is moved by dispatching BankMsg::Send through the router -- iff the funds vector is non-empty -- and the
+     bank's error is the message's error; THEN the callee runs with info = { sender, funds } *)
+  Definition funded_effect (fc : fclass) (sp cp : N) : effect :=
+    let callee := mk_entry callee_slot (i_sender inp) cp (i_height inp) in
+    if f_nonempty fc then
+      match rx R MBank with
+      | XPanic => EPanic
+      | XBail => EDone [] RErr []
+      | XTo slb intactb =>
+          let b := nthN (i_cfg inp) slb Failing in
+          let pl := if intactb then sp else unk in
+          let es := if records b then [mk_rec slb intactb (i_sender inp) sp] else [] in
+          if is_ok (bank_result b fc pl)
+          then EDone (es ++ [callee]) (ROk None) ((if records b then [(slb, pl)] else []) ++ [(callee_slot, cp)])
+          else EDone es RErr []
+      end
+    else EDone [callee] (ROk None) [(callee_slot, cp)].
+
+  Definition effect_of (p : probe) : effect :=
+    match p with
+    | PQuery k x _ =>
+        match rq R k with
+        | XPanic => EPanic
+        | XBail => EDone [] RErr []
+        | XTo sl intact => module_effect sl intact false 0 x
+        end
+    | PMsg k x _ =>
+        match route_msg k with
+        | XPanic => EPanic
+        | XBail => EDone [] RErr []
+        | XTo sl intact => module_effect sl intact true (i_sender inp) x
+        end
+    | PFunded _ fc sp cp _ =>
+        match route_msg MWasm with
+        | XPanic => EPanic
+        | XBail => EDone [] RErr []
+        | XTo sl intact =>
+            if (sl =? slot_id SlWasm) && intact then funded_effect fc sp cp
+            else EDone [mk_entry sl unk unk unk] RErr []      (* not handed to the wasm module as emitted *)
+        end
+    end.
 
   Definition stop (s : mstate) (st : status) : mstate := mk_ms st (ms_i s) (ms_log s) (ms_keys s) (ms_seen s).
 
@@ -462,24 +545,17 @@ Section Run.
     match ms_status s with
     | Running =>
         if p_is_msg p && lift_abort then stop s Panicked
-        else match target p with
-             | XPanic => stop s Panicked
-             | XBail =>
-                 if p_catch p then mk_ms Running (N.succ (ms_i s)) (ms_log s) (ms_keys s) (ms_seen s ++ [(ms_i s, RErr)])
-                 else stop s Aborted
-             | XTo sl intact =>
-                 let b := nthN (i_cfg inp) sl Failing in
-                 let log' := if records b then ms_log s ++ [entry_for sl intact p] else ms_log s in
-                 let pl := if intact then p_payload p else unk in
-                 match mod_result b pl with
+        else match effect_of p with
+             | EPanic => stop s Panicked
+             | EDone es r ks =>
+                 match r with
                  | ROk d =>
-                     mk_ms Running (N.succ (ms_i s)) log'
-                       (if p_is_msg p && records b then ms_keys s ++ [(sl, pl)] else ms_keys s)
+                     mk_ms Running (N.succ (ms_i s)) (ms_log s ++ es) (ms_keys s ++ ks)
                        (if sees p then ms_seen s ++ [(ms_i s, ROk d)] else ms_seen s)
                  | _ =>
-                     (* the module's own write is rolled back with the sub-transaction / the transaction *)
-                     if p_catch p then mk_ms Running (N.succ (ms_i s)) log' (ms_keys s) (ms_seen s ++ [(ms_i s, RErr)])
-                     else mk_ms Aborted (ms_i s) log' (ms_keys s) (ms_seen s)
+                     (* whatever the probe wrote is rolled back with the sub-transaction / the transaction *)
+                     if p_catch p then mk_ms Running (N.succ (ms_i s)) (ms_log s ++ es) (ms_keys s) (ms_seen s ++ [(ms_i s, RErr)])
+                     else mk_ms Aborted (ms_i s) (ms_log s ++ es) (ms_keys s) (ms_seen s)
                  end
              end
     | _ => s
@@ -535,29 +611,31 @@ Definition table_routes : routes :=
 Definition spec_case (inp : input) : obs := run spec_routes inp.
 Definition model_case (inp : input) : obs := run table_routes inp.
 
-(* ---------- extensionality: the run only depends on the routes of the kinds that occur ---------- *)
+(* ---------- extensionality: the run only depends on the routes that are consulted ---------- *)
 Definition routes_agree_on (R1 R2 : routes) (ps : list probe) : Prop :=
-  forall p, In p ps -> match p with
-                       | PMsg k _ _ => rx R1 k = rx R2 k /\ rl R1 k = rl R2 k /\
-                                       (forall k', rl R1 k = LTo (Some k') true \/ rl R1 k = LTo (Some k') false -> rx R1 k' = rx R2 k')
-                       | PQuery k _ _ => rq R1 k = rq R2 k
-                       end.
+  (forall k, rx R1 k = rx R2 k) /\ (forall k, rl R1 k = rl R2 k) /\
+  forall p, In p ps -> match p with PQuery k _ _ => rq R1 k = rq R2 k | _ => True end.
 
 Lemma lift_abort_ext R1 R2 inp : routes_agree_on R1 R2 (i_probes inp) -> lift_abort R1 inp = lift_abort R2 inp.
 Proof.
-  intros H. unfold lift_abort. destruct (i_origin inp); try reflexivity.
-  induction (i_probes inp) as [|p ps IH]; [reflexivity|]. cbn [existsb].
-  rewrite IH by (intros q Hq; apply H; right; exact Hq).
-  specialize (H p (or_introl eq_refl)). destruct p as [k x c|k x c]; [|reflexivity].
-  destruct H as (_ & -> & _). reflexivity.
+  intros (_ & Hl & _). unfold lift_abort. f_equal.
+  induction (i_probes inp) as [|p ps IH]; [reflexivity|]. cbn [existsb]. rewrite IH.
+  destruct (p_mkind p) as [k|]; [rewrite Hl|]; reflexivity.
 Qed.
 
-Lemma target_ext R1 R2 inp p : routes_agree_on R1 R2 (i_probes inp) -> In p (i_probes inp) -> target R1 inp p = target R2 inp p.
+Lemma route_msg_ext R1 R2 inp k : routes_agree_on R1 R2 (i_probes inp) -> route_msg R1 inp k = route_msg R2 inp k.
 Proof.
-  intros H Hp. specialize (H p Hp). destruct p as [k x c|k x c]; cbn [target]; [|exact H].
-  destruct H as (Hx & Hl & Hk). destruct (i_origin inp); try exact Hx.
-  rewrite <- Hl. destruct (rl R1 k) as [[k'|] ok|] eqn:E; try reflexivity.
-  rewrite (Hk k') by (destruct ok; auto). reflexivity.
+  intros (Hx & Hl & _). unfold route_msg. rewrite Hl, Hx.
+  destruct (is_empty_typed (i_origin inp)); [|reflexivity].
+  destruct (rl R2 k) as [[k'|] ok|]; try reflexivity. rewrite Hx. reflexivity.
+Qed.
+
+Lemma effect_ext R1 R2 inp p : routes_agree_on R1 R2 (i_probes inp) -> In p (i_probes inp) -> effect_of R1 inp p = effect_of R2 inp p.
+Proof.
+  intros H Hp. destruct p as [k x c|k x c|ins fc sp cp c]; cbn [effect_of].
+  - rewrite (route_msg_ext R1 R2 inp k H). reflexivity.
+  - destruct H as (_ & _ & Hq). specialize (Hq _ Hp). cbn in Hq. rewrite Hq. reflexivity.
+  - rewrite (route_msg_ext R1 R2 inp MWasm H). unfold funded_effect. destruct H as (Hx & _ & _). rewrite Hx. reflexivity.
 Qed.
 
 Lemma run_ext R1 R2 inp : routes_agree_on R1 R2 (i_probes inp) -> run R1 inp = run R2 inp.
@@ -567,7 +645,7 @@ Proof.
                            fold_left (step R1 inp) ps s = fold_left (step R2 inp) ps s).
   { induction ps as [|p ps IH]; intros s Hs; [reflexivity|]. cbn [fold_left].
     assert (E : step R1 inp s p = step R2 inp s p).
-    { unfold step. rewrite (lift_abort_ext R1 R2 inp H), (target_ext R1 R2 inp p H) by (apply Hs; left; reflexivity). reflexivity. }
+    { unfold step. rewrite (lift_abort_ext R1 R2 inp H), (effect_ext R1 R2 inp p H) by (apply Hs; left; reflexivity). reflexivity. }
     rewrite E. apply IH. intros q Hq. apply Hs. right. exact Hq. }
   apply G. auto.
 Qed.
@@ -575,20 +653,46 @@ Qed.
 Lemma run_ext_all R1 R2 inp :
   (forall k, rx R1 k = rx R2 k) -> (forall k, rq R1 k = rq R2 k) -> (forall k, rl R1 k = rl R2 k) -> run R1 inp = run R2 inp.
 Proof.
-  intros Hx Hq Hl. apply run_ext. intros [k x c|k x c] _; [|apply Hq]. repeat split; auto.
+  intros Hx Hq Hl. apply run_ext. split; [exact Hx|]. split; [exact Hl|]. intros [k x c|k x c|ins fc sp cp c] _; auto.
 Qed.
 
 (* ------------------------------------------------------------------------------------------ *)
 (* The L4 theorems, about the SPEC routing, for every configuration and every program          *)
 (* ------------------------------------------------------------------------------------------ *)
 Definition beh (inp : input) (p : probe) : behaviour := nthN (i_cfg inp) (pslot p) Failing.
-(* what the configured module answers to the probe *)
-Definition answer (inp : input) (p : probe) : res := mod_result (beh inp p) (p_payload p).
+Definition bank_beh (inp : input) : behaviour := nthN (i_cfg inp) (slot_id SlBank) Failing.
+(* the address a module / a callee must be given as the sender of the probe *)
+Definition p_sender (inp : input) (p : probe) : N := if p_is_msg p then i_sender inp else 0.
+
+(* what the caller of the probe is answered: the configured module's answer; for a funded wasm message, the
+   configured BANK module's verdict on the Send whenever the funds vector is non-empty *)
+Definition answer (inp : input) (p : probe) : res :=
+  match p with
+  | PFunded _ fc sp _ _ => if f_nonempty fc && negb (is_ok (bank_result (bank_beh inp) fc sp)) then RErr else ROk None
+  | _ => mod_result (beh inp p) (p_payload p)
+  end.
 (* the probe ends the transaction: its module fails and nobody catches the failure *)
 Definition stops (inp : input) (p : probe) : bool := negb (is_ok (answer inp p)) && negb (p_catch p).
 (* the record the configured recording module makes of the probe: sender, payload, block intact *)
 Definition entry_of (inp : input) (p : probe) : entry :=
-  mk_entry (pslot p) (if p_is_msg p then i_sender inp else 0) (p_payload p) (i_height inp).
+  mk_entry (pslot p) (p_sender inp p) (p_payload p) (i_height inp).
+(* all records a reached probe leaves: for a funded wasm message, exactly one Send record of the recording
+   bank (sender = the payer, the coins verbatim) iff the funds are non-empty, and AFTER it the callee's own
+   record iff the bank agreed *)
+Definition entries_of (inp : input) (p : probe) : list entry :=
+  match p with
+  | PFunded _ fc sp cp _ =>
+      (if f_nonempty fc && records (bank_beh inp) then [mk_entry (slot_id SlBank) (i_sender inp) sp (i_height inp)] else []) ++
+      (if is_ok (answer inp p) then [mk_entry callee_slot (i_sender inp) cp (i_height inp)] else [])
+  | _ => if records (beh inp p) then [entry_of inp p] else []
+  end.
+Definition keys_of (inp : input) (p : probe) : list (N * N) :=
+  match p with
+  | PFunded _ fc sp cp _ =>
+      (if f_nonempty fc && records (bank_beh inp) then [(slot_id SlBank, sp)] else []) ++ [(callee_slot, cp)]
+  | PMsg _ x _ => if records (beh inp p) then [(pslot p, x)] else []
+  | PQuery _ _ _ => []
+  end.
 
 Definition aborts_lift (inp : input) (p : probe) : bool := p_is_msg p && lift_abort spec_routes inp.
 
@@ -600,36 +704,58 @@ Fixpoint reached (inp : input) (ps : list probe) : list probe :=
   | p :: r => if aborts_lift inp p then [] else p :: (if stops inp p then [] else reached inp r)
   end.
 
-Lemma lift_abort_member inp k x c :
-  i_origin inp = SubEmpty -> In (PMsg k x c) (i_probes inp) -> rl spec_routes k = LAbort -> lift_abort spec_routes inp = true.
+Lemma lift_abort_member inp p k :
+  is_empty_typed (i_origin inp) = true -> In p (i_probes inp) -> p_mkind p = Some k -> rl spec_routes k = LAbort ->
+  lift_abort spec_routes inp = true.
 Proof.
-  intros Eo Hin Hk. unfold lift_abort. rewrite Eo. apply existsb_exists. exists (PMsg k x c). split; [exact Hin|].
-  rewrite Hk. reflexivity.
+  intros Eo Hin Hp Hk. unfold lift_abort. rewrite Eo. cbn [andb]. apply existsb_exists. exists p. split; [exact Hin|].
+  rewrite Hp, Hk. reflexivity.
 Qed.
 
-Lemma spec_target inp p :
-  In p (i_probes inp) -> aborts_lift inp p = false -> target spec_routes inp p = XTo (pslot p) true.
+Lemma spec_route_msg inp p k :
+  In p (i_probes inp) -> p_mkind p = Some k -> aborts_lift inp p = false -> p_is_msg p = true ->
+  route_msg spec_routes inp k = XTo (slot_id (mslot k)) true.
 Proof.
-  destruct p as [k x c|k x c]; cbn [target pslot spec_routes rq rx rl]; [|reflexivity].
-  unfold aborts_lift. cbn [p_is_msg andb]. intros Hin H.
-  destruct (i_origin inp) eqn:Eo; try reflexivity.
+  intros Hin Hp Ha Hm. unfold route_msg. destruct (is_empty_typed (i_origin inp)) eqn:Eo; [|reflexivity].
+  unfold aborts_lift in Ha. rewrite Hm in Ha. cbn [andb] in Ha.
   destruct k; try reflexivity.
-  rewrite (lift_abort_member inp MCustom x c Eo Hin eq_refl) in H. discriminate.
+  rewrite (lift_abort_member inp p MCustom Eo Hin Hp eq_refl) in Ha. discriminate.
 Qed.
 
 Lemma answer_cases inp p : (exists d, answer inp p = ROk d) \/ answer inp p = RErr.
-Proof. unfold answer, mod_result. destruct (beh inp p); eauto. Qed.
+Proof.
+  destruct p as [k x c|k x c|ins fc sp cp c]; cbn [answer]; try (unfold mod_result; destruct (beh inp _); eauto).
+  destruct (f_nonempty fc && negb (is_ok (bank_result (bank_beh inp) fc sp))); eauto.
+Qed.
+
+(* the effect of a probe under the SPEC routing *)
+Lemma spec_effect inp p :
+  In p (i_probes inp) -> aborts_lift inp p = false ->
+  exists ks, effect_of spec_routes inp p = EDone (entries_of inp p) (answer inp p) ks /\
+             (is_ok (answer inp p) = true -> ks = keys_of inp p).
+Proof.
+  intros Hin Ha. destruct p as [k x c|k x c|ins fc sp cp c]; cbn [effect_of].
+  - rewrite (spec_route_msg inp (PMsg k x c) k Hin eq_refl Ha eq_refl).
+    unfold module_effect, mk_rec. eexists. split; [reflexivity|]. intros _. reflexivity.
+  - cbn [spec_routes rq]. unfold module_effect, mk_rec. eexists. split; [reflexivity|]. intros _. reflexivity.
+  - rewrite (spec_route_msg inp (PFunded ins fc sp cp c) MWasm Hin eq_refl Ha eq_refl).
+    cbn [mslot]. rewrite N.eqb_refl. cbn [andb]. unfold funded_effect. cbn [spec_routes rx mslot entries_of answer keys_of].
+    fold (bank_beh inp). unfold mk_rec.
+    destruct (f_nonempty fc); cbn [andb].
+    + destruct (is_ok (bank_result (bank_beh inp) fc sp)) eqn:Eb; cbn [negb is_ok].
+      * eexists. split; [reflexivity|]. intros _. reflexivity.
+      * eexists. split; [rewrite app_nil_r; reflexivity|]. discriminate.
+    + eexists. split; [reflexivity|]. intros _. reflexivity.
+Qed.
 
 (* one step of the SPEC router, written out *)
 Definition spec_step (inp : input) (s : mstate) (p : probe) : mstate :=
   if aborts_lift inp p then stop s Panicked
   else
-    let b := beh inp p in
-    let log' := if records b then ms_log s ++ [entry_of inp p] else ms_log s in
+    let log' := ms_log s ++ entries_of inp p in
     match answer inp p with
     | ROk d =>
-        mk_ms Running (N.succ (ms_i s)) log'
-          (if p_is_msg p && records b then ms_keys s ++ [(pslot p, p_payload p)] else ms_keys s)
+        mk_ms Running (N.succ (ms_i s)) log' (ms_keys s ++ keys_of inp p)
           (if sees inp p then ms_seen s ++ [(ms_i s, ROk d)] else ms_seen s)
     | _ =>
         if p_catch p then mk_ms Running (N.succ (ms_i s)) log' (ms_keys s) (ms_seen s ++ [(ms_i s, RErr)])
@@ -641,7 +767,8 @@ Lemma step_spec_step inp s p :
 Proof.
   intros Hin Hs. unfold step, spec_step. rewrite Hs. fold (aborts_lift inp p).
   destruct (aborts_lift inp p) eqn:Ea; [reflexivity|].
-  rewrite (spec_target inp p Hin Ea). reflexivity.
+  destruct (spec_effect inp p Hin Ea) as (ks & -> & Hk).
+  destruct (answer inp p) as [d| |]; try reflexivity. rewrite (Hk eq_refl). reflexivity.
 Qed.
 
 Lemma fold_stopped R inp ps s : ms_status s <> Running -> fold_left (step R inp) ps s = s.
@@ -651,8 +778,7 @@ Proof.
   rewrite E. exact IH.
 Qed.
 
-Definition log_of (inp : input) (ps : list probe) : list entry :=
-  flat_map (fun p => if records (beh inp p) then [entry_of inp p] else []) ps.
+Definition log_of (inp : input) (ps : list probe) : list entry := flat_map (entries_of inp) ps.
 
 (* what the callers of the probes are shown in a transaction that succeeds: the answer of the
    configured module, for every probe whose caller looks at it (and for every caught failure) *)
@@ -674,11 +800,10 @@ Proof.
     + rewrite fold_stopped by (cbn; discriminate). unfold log_of. cbn. rewrite app_nil_r. reflexivity.
     + unfold stops. unfold log_of at 1. cbn [flat_map]. fold (log_of inp (if negb (is_ok (answer inp p)) && negb (p_catch p) then [] else reached inp ps)).
       destruct (answer_cases inp p) as [[d E]|E]; rewrite E; cbn [is_ok negb andb].
-      * rewrite IH by (auto). cbn [ms_log]. destruct (records (beh inp p)); [rewrite <- app_assoc|]; reflexivity.
+      * rewrite IH by (auto). cbn [ms_log]. rewrite <- app_assoc. reflexivity.
       * destruct (p_catch p); cbn [negb].
-        -- rewrite IH by (auto). cbn [ms_log]. destruct (records (beh inp p)); [rewrite <- app_assoc|]; reflexivity.
-        -- rewrite fold_stopped by (cbn; discriminate). cbn [ms_log]. unfold log_of. cbn [flat_map]. rewrite app_nil_r.
-           destruct (records (beh inp p)); [|rewrite app_nil_r]; reflexivity.
+        -- rewrite IH by (auto). cbn [ms_log]. rewrite <- app_assoc. reflexivity.
+        -- rewrite fold_stopped by (cbn; discriminate). cbn [ms_log]. unfold log_of. cbn [flat_map]. rewrite app_nil_r. reflexivity.
 Qed.
 
 Lemma fold_aborts inp ps : forall s,
@@ -726,13 +851,44 @@ Qed.
 Lemma finish_log inp s : o_log (finish inp s) = ms_log s.
 Proof. unfold finish. destruct (ms_status s); reflexivity. Qed.
 
-(* other_modules_untouched: the module log of a run is exactly one record per probe that was reached and
-   whose CONFIGURED module records -- that slot, with the sender, the payload and the block height of the
-   probe -- in program order, and nothing else *)
+(* other_modules_untouched: the module log of a run is exactly the records of the probes that were reached
+   (entries_of: the CONFIGURED module's slot, with the sender, the payload and the block height of the
+   probe; for a funded wasm message the bank's Send record, then the callee's) in program order, and
+   nothing else *)
 Lemma L4_other_modules_untouched inp :
   o_log (spec_case inp) = log_of inp (reached inp (i_probes inp)).
 Proof.
   unfold spec_case, run. rewrite finish_log, fold_log; auto.
+Qed.
+
+(* the sender clause, spelled out: every record of a message probe carries i_sender -- the user at top
+   level, the EMITTING contract for every contract origin and every entry point -- and a query none *)
+Lemma L4_sender_is_emitter inp p e :
+  In e (entries_of inp p) -> e_sender e = p_sender inp p /\ e_height e = i_height inp.
+Proof.
+  destruct p as [k x c|k x c|ins fc sp cp c]; cbn [entries_of].
+  - destruct (records _); [|intros []]. intros [<-|[]]. auto.
+  - destruct (records _); [|intros []]. intros [<-|[]]. auto.
+  - intros H. apply in_app_or in H as [H|H].
+    + destruct (_ && _); [|destruct H]. destruct H as [<-|[]]. auto.
+    + destruct (is_ok _); [|destruct H]. destruct H as [<-|[]]. auto.
+Qed.
+
+(* funds: the recording bank logs exactly one Send (payer, coins verbatim) iff the vector is non-empty, before
+   the callee; the callee runs iff the vector is empty or the bank agreed *)
+Lemma L4_funds_go_through_the_bank inp ins fc sp cp c :
+  let p := PFunded ins fc sp cp c in
+  let send := mk_entry (slot_id SlBank) (i_sender inp) sp (i_height inp) in
+  let callee := mk_entry callee_slot (i_sender inp) cp (i_height inp) in
+  (f_nonempty fc = false -> entries_of inp p = [callee] /\ answer inp p = ROk None) /\
+  (f_nonempty fc = true -> records (bank_beh inp) = true ->
+     entries_of inp p = send :: (if is_ok (bank_result (bank_beh inp) fc sp) then [callee] else []) /\
+     answer inp p = (if is_ok (bank_result (bank_beh inp) fc sp) then ROk None else RErr)).
+Proof.
+  cbn zeta. split.
+  - intros E. cbn [entries_of answer]. rewrite E. cbn. auto.
+  - intros E Hr. cbn [entries_of answer]. rewrite E, Hr. cbn [andb].
+    destruct (is_ok (bank_result (bank_beh inp) fc sp)); cbn; auto.
 Qed.
 
 (* failing_module_aborts: if the module configured for some probe fails and nobody catches the failure,
@@ -769,5 +925,9 @@ Qed.
 (* the answers themselves: Ok iff the configured module accepts; a recording module hands back the digest
    of the payload it was given *)
 Lemma answer_spec inp p :
-  answer inp p = match beh inp p with Accepting => ROk None | RecOk => ROk (Some (p_payload p)) | Failing | RecErr => RErr end.
-Proof. reflexivity. Qed.
+  answer inp p =
+  match p with
+  | PFunded _ fc sp _ _ => if f_nonempty fc && negb (is_ok (bank_result (bank_beh inp) fc sp)) then RErr else ROk None
+  | _ => match beh inp p with Accepting => ROk None | RecOk => ROk (Some (p_payload p)) | Failing | RecErr | Keeper => RErr end
+  end.
+Proof. destruct p; reflexivity. Qed.
